@@ -117,6 +117,27 @@ fn directed(ctx: &mut Ctx) {
         check_buffer(ctx, &b, &o);
         ctx.eval();
     }
+    // requests and non-requests with very many distinct unknown types (the 420 response has to list
+    // them all): policing with nothing / half / everything supported
+    {
+        let mut r2 = ctx.rng("many-types", 0);
+        for cnt in [16usize, 17, 64, 93, 94, 95, 128, 200, 381, 382, 1000] {
+            let mut types: Vec<u16> = vec![];
+            while types.len() < cnt {
+                let t = r2.next() as u16 & 0x7fff;
+                if t != 0x0008 && t != 0x001c && !types.contains(&t) {
+                    types.push(t);
+                }
+            }
+            let tlvs: Vec<Tlv> = types.iter().map(|t| Tlv::new(*t, vec![0u8; (*t % 3) as usize])).collect();
+            let b = encode(0, 1, &[7; 12], &tlvs);
+            let half: Vec<u16> = types.iter().copied().step_by(2).collect();
+            let o = Opts { creds: vec![creds.clone()], police: vec![(vec![], vec![]), (half, vec![0x0006]), (types.clone(), vec![])], deep: false, typed: false };
+            check_buffer(ctx, &b, &o);
+            ctx.eval();
+            ctx.count("many-types-policed");
+        }
+    }
     // integrity attribute ending beyond 65 535 (16-bit arithmetic in validate_integrity)
     let mut rng = ctx.rng("directed", 0);
     for (total, tail) in [
